@@ -25,7 +25,7 @@ BUDGET = {"quick": 900, "thorough": 3400}
 
 META = dict(
     rule="(A) prefix tree: each of the 11 test functions x 1-5 parameter sets x every series of length 0..N over "
-         "{0,1,3,NaN} as ndarray, as masked array (missing = masked with 999 underneath; masked arrays and lists to length N-1) and over {0,1,3,NaN,None} as python list (positions: 7 lon/lat pairs incl. each "
+         "{0,1,3,NaN} as ndarray, as float and integer masked arrays (missing = masked with 999 / 7 underneath; masked arrays and lists to length N-1) and over {0,1,3,NaN,None} as python list (positions: 7 lon/lat pairs incl. each "
          "coordinate NaN/None), aux inputs = regular 60 s axis, depth ramp and the data's missing pattern shifted by "
          "one; each state executes the real function twice on the same argument objects with a call on another series of the same length in between and checks: no exception, one "
          "flag per element, input shape, every flag in {1,2,3,4,9}, no masked flag, argument objects byte-identical "
@@ -47,13 +47,15 @@ def tasks(tier):
         pos = spec["kind"] == "position"
         n = PNMAX[tier] if pos else NMAX[tier]
         for ci in range(len(spec["cfgs"])):
-            for how in ("nd", "list", "ma", "ma2"):
-                if how in ("ma", "ma2") and not spec["none_ok"]:
+            for how in ("nd", "list", "ma", "ma2", "mai"):
+                if how in ("ma", "ma2", "mai") and not spec["none_ok"]:
                     continue
+                if how == "mai" and None in (spec["cfgs"][ci].get("valid_span") or ()):
+                    continue  # integer data with a None bound: not judged (numpy cannot build the span array)
                 if how == "list" and not spec["none_ok"]:
                     sig = "nd"
                 else:
-                    sig = "nd" if how in ("ma", "ma2") else how
+                    sig = "nd" if how in ("ma", "ma2", "mai") else how
                 ts.append(("A", name, ci, how, sig, n if how == "nd" else n - 1))
     ops = len(OPS)
     for first in range(ops):
@@ -84,6 +86,8 @@ def check_case(case):
     site = name
     vs = []
     built = alpha.call(G.build, name, cfg, x, how, case.get("zmode", "ramp"))
+    if not isinstance(built, alpha.Raised) and any(v is None for v in built[1].values()):
+        return [], False, None, 1, 0  # the carrier cannot hold this series (non-integral value in an integer array)
     if isinstance(built, alpha.Raised):
         return [V(f"{PROP}|{site}|symptom=config-{built!r}", f"building parameters raised {built.name}: {built.msg}")], True, None, 0, 0
     fn, kw, shared = built
